@@ -13,7 +13,7 @@ SEEDED = os.path.join(VERIF, "seeded")
 
 RELATED = {"C01": ["C01", "C02", "C03", "C04"], "C02": ["C01", "C02", "C03", "C04"], "C03": ["C01", "C02", "C03", "C04"],
            "C04": ["C01", "C02", "C03", "C04"], "C06": ["C06"], "C07": ["C07"], "C08": ["C08", "C10"], "C09": ["C09"],
-           "C10": ["C10", "C08"], "C13": ["C13", "C14"]}
+           "C10": ["C10", "C08"], "C13": ["C13", "C14"], "C12": ["C12", "C02"]}
 
 
 def needs_of(readme):
